@@ -44,7 +44,7 @@ def mk(cfg, world):
         kw["class_thresholds"] = cts
     if cfg.get("extra_trip"):
         kw["trip_on"] = trip | {EC[k] for k in cfg["extra_trip"]}
-    eff = kw["trip_on"]
+    eff = set(kw["trip_on"])  # the configuration as the caller wrote it (a copy: the caller's own set is played with below)
     if cfg.get("trip_mode") == "default":
         del kw["trip_on"]  # the library's documented default {TRANSIENT, SERVER_ERROR}
         eff = {EC.TRANSIENT, EC.SERVER_ERROR}
@@ -55,6 +55,12 @@ def mk(cfg, world):
         kw["trip_on"] = rng_empty(cfg)  # explicitly empty: only class thresholds can trip
         eff = set()
     real = CircuitBreaker(**kw)  # default clock argument = interposed time.monotonic
+    mine = kw.get("trip_on")
+    if isinstance(mine, set) and cfg.get("reuse_trip_set", True):
+        # the caller goes on using ITS set object: builds another breaker from it (one with class thresholds of its own), then edits it
+        CircuitBreaker(failure_threshold=3, window_s=5.0, recovery_timeout_s=5.0, trip_on=mine, class_thresholds={EC.RATE_LIMIT: 1, EC.CONCURRENCY: 2})
+        mine.add(EC.AUTH)
+        mine.discard(EC.TRANSIENT)
     model = BreakerModel(threshold=cfg["threshold"], window=cfg["window"], recovery=cfg["recovery"], trip_on={k.name for k in eff}, class_thresholds={k.name: v for k, v in cts.items()})
     return real, model
 
